@@ -15,18 +15,18 @@ theorem C06_clause_order_irrelevant (W : World) (b : Block) (cs : List Clause) (
     applies W b q ↔ applies W { b with clauses := cs } q := by
   constructor
   · rintro ⟨ρ, h0, h1, h2, h3⟩
-    exact ⟨ρ, h0, h1, fun c hc => h2 c (h.mem_iff.mpr hc), h3⟩
+    exact ⟨ρ, wkB_of_sub (b := b) (b' := { b with clauses := cs }) rfl (fun c hc => h.mem_iff.mpr hc) (fun _ hp => hp) h0, h1, fun c hc => h2 c (h.mem_iff.mpr hc), h3⟩
   · rintro ⟨ρ, h0, h1, h2, h3⟩
-    exact ⟨ρ, h0, h1, fun c hc => h2 c (h.mem_iff.mp hc), h3⟩
+    exact ⟨ρ, wkB_of_sub (b := { b with clauses := cs }) (b' := b) rfl (fun c hc => h.mem_iff.mp hc) (fun _ hp => hp) h0, h1, fun c hc => h2 c (h.mem_iff.mp hc), h3⟩
 
 /-- likewise for the order of the parameters that must be `Sized` (declaration order of `impl<..>`) -/
 theorem C06_decl_order_irrelevant (W : World) (b : Block) (ps : List String) (h : b.sizedParams.Perm ps) (q : T) :
     applies W b q ↔ applies W { b with sizedParams := ps } q := by
   constructor
   · rintro ⟨ρ, h0, h1, h2, h3⟩
-    exact ⟨ρ, h0, h1, h2, fun p hp => h3 p (h.mem_iff.mpr hp)⟩
+    exact ⟨ρ, wkB_of_sub (b := b) (b' := { b with sizedParams := ps }) rfl (fun _ hc => hc) (fun p hp => h.mem_iff.mpr hp) h0, h1, h2, fun p hp => h3 p (h.mem_iff.mpr hp)⟩
   · rintro ⟨ρ, h0, h1, h2, h3⟩
-    exact ⟨ρ, h0, h1, h2, fun p hp => h3 p (h.mem_iff.mp hp)⟩
+    exact ⟨ρ, wkB_of_sub (b := { b with sizedParams := ps }) (b' := b) rfl (fun _ hc => hc) (fun p hp => h.mem_iff.mp hp) h0, h1, h2, fun p hp => h3 p (h.mem_iff.mp hp)⟩
 
 /-- two presentations of an invocation whose (canonicalised) blocks are the same up to order are implemented for
     exactly the same queries, whatever well-formed groupings the macro forms for them -/
